@@ -141,11 +141,8 @@ impl<const N: usize> AEADCipherCodec<N> {
         dst.put_u64(aead_2022::now()?);
         dst.put_u64(session.client_session_id);
         dst.put_u16(padding_length);
-        if padding_length > 0 {
-            unsafe {
-                dst.advance_mut(padding_length as usize);
-            }
-        }
+        // the padding goes onto the network: fill it, never expose uninitialised buffer memory
+        dst.extend_from_slice(&dice::roll_bytes(padding_length as usize));
         address::encode(address, dst);
         dst.extend_from_slice(&item);
         unsafe { dst.advance_mut(tag_size) };
